@@ -14,6 +14,7 @@ import (
 	"math/rand"
 	"os"
 	"reflect"
+	"regexp"
 	"runtime/debug"
 	"strings"
 	"time"
@@ -319,10 +320,17 @@ func sameJSONValue(a, b json.RawMessage) bool {
 	return reflect.DeepEqual(x, y)
 }
 
+var rfc3339Text = regexp.MustCompile(`^\d{4}-\d{2}-\d{2}T\d{2}:\d{2}:\d{2}(?:\.\d+)?(?:Z|[+-](\d{2}):(\d{2}))$`)
+
 // classifyString: the literal class of a JSON string, by independent decoders.
 func classifyString(s string) string {
 	if _, err := time.Parse(time.RFC3339Nano, s); err == nil {
-		return "time"
+		// RFC 3339 itself: two digits everywhere, a full stop before the fraction, an offset below 24:00
+		// with minutes below 60 (Go's parser takes more)
+		if m := rfc3339Text.FindStringSubmatch(s); m != nil && (m[1] == "" || (m[1] <= "23" && m[2] <= "59")) {
+			return "time"
+		}
+		return "timelax"
 	}
 	if b, err := base64.StdEncoding.Strict().DecodeString(s); err == nil && base64.StdEncoding.EncodeToString(b) == s {
 		return "b64"
@@ -365,6 +373,10 @@ func nonIntLits() []jLit {
 		str("time", "2001-02-03T04:05:06Z"), str("time", "2001-02-03T04:05:06.789012345+02:00"),
 		str("time", "0001-01-01T00:00:00Z"), str("time", "9999-12-31T23:59:59.999999999-14:00"),
 		str("time", "2020-02-29T12:00:00.5-07:30"),
+		// texts Go's parser takes although RFC 3339 does not define them (refusing them is fine; an accepted one
+		// is the instant it spells and can be written back)
+		str("timelax", "2001-02-03T4:05:06Z"), str("timelax", "2001-02-03T04:05:06,5Z"), str("timelax", "2001-02-03T04:05:06-00:60"),
+		str("timelax", "2001-02-03T04:05:06+24:00"), str("timelax", "2001-02-03T04:05:06.25-24:00"),
 		str("b64", b64("")), str("b64", b64("a")), str("b64", b64("ab")), str("b64", b64("abc")),
 		str("b64", b64("\x00\xff\x80binary")), str("b64", "AAAA"),
 		str("b64nc", "YQ"), str("b64nc", "YR=="), str("b64nc", "YWI"),
